@@ -39,6 +39,11 @@ def run(c):
         "routed into them: all recipients or those of per-address destination blocks routed into the nest (others to a direct target), outer rewrites (1-to-N, chains through client-supplied addresses, "
         "spelling-only) in every placement, inner rewrites (fresh address, 1-to-2, another spelling, the address of a client recipient that stays outside the nest), per-recipient failures from the target behind "
         "the inner pipeline; metadata that already carries the OriginalRcpts table of a pipeline the message passed earlier (pipeline in front of a queue); "
+        "statuses the PIPELINE generates itself: body stage failing for the whole delivery (body check reject at global / source / destination level, applyResults = DMARC policy reject, "
+        "RewriteBody failure of a global / source / destination modifier) and targets without per-recipient results whose Body fails or succeeds (all direct recipients or those of per-address "
+        "destination blocks, next to a per-recipient target), in the outer and in the nested pipeline, crossed with every recipient-list family above and with MANY-TO-ONE recipient lists "
+        "(an alias together with the mailbox it is rewritten to, two or three aliases of one fresh or client-supplied mailbox, two spellings normalised to one, chains ending in a supplied mailbox, "
+        "two such groups, inside 1-to-N expansions, with repeated client addresses, many-to-one rewrites inside the nested pipeline): one failure per effective recipient under exactly the address the client supplied; "
         "status keys and values seen by a recording StatusCollector compared with the model; distinct = distinct histories",
         explanation="theorems over all histories/pools/recipient lists; model tied to smtpconn/remote/smtp_downstream by differential runs against scripted servers",
         search=search,
